@@ -169,13 +169,15 @@ J_rel(e) ==
       cls == <<m, a.k>> \o (IF Len(e.pre) = 3 THEN <<PClass(a), PClass(b), PClass(e.pre[3])>> ELSE <<PClass(a), PClass(b)>>)
              \o <<"overlap-pair", B(\E i \in 2..Len(e.pre) : OvPair(e.pre[i]))>>
   IN IF \E i \in 1..Len(e.pre) : PClass(e.pre[i]) = "skipped" THEN R(<<"ill-formed-endpoint">>, <<>>)
-     ELSE IF p.k = "exc" THEN R(cls, << <<"unexpected-exception", p.names>> >>)
+     ELSE IF p.k = "exc" THEN R(cls, << <<"x-unexpected-exception", p.names>> >>)
      ELSE CASE m \in {"closest", "farthest"} ->
                  LET c == e.pre[3]  db == D3Abs(Elapsed(a, b))  dc == D3Abs(Elapsed(a, c))
                      want == IF (m = "closest") = D3Lt(db, dc) THEN b ELSE c
                  IN IF db = dc THEN R(cls \o <<"tie">>, <<>>)
+                    \* the ranking uses abs(self - candidate), which finding C05-magnitude-inside-overlap makes wrong here
+                    ELSE IF OvPair(b) \/ OvPair(c) THEN R(cls \o <<"derived-from-C05-magnitude-inside-overlap">>, <<>>)
                     ELSE R(cls \o <<"gap", (IF D3Abs(D3Sub(db, dc)) = <<0, 0, D3Abs(D3Sub(db, dc))[3]>> THEN "sub-second" ELSE "wide")>>,
-                           V(m, SamePt(p, want), want.w))
+                           V("x-" \o m, SamePt(p, want), want.w))
             [] m = "average" ->
                  LET el == Elapsed(a, b)
                      got == IF p.k \in {"dt", "date"} THEN Elapsed(a, p) ELSE <<0, 0, 0>>
@@ -183,14 +185,14 @@ J_rel(e) ==
                      unit == IF IsDate(a) THEN <<1, 0, 0>> ELSE <<0, 0, 1>>
                  IN R(cls \o <<N(D3Sign(el) + 1), B(Exact(el))>>,
                       IF ~Exact(el) THEN <<>>
-                      ELSE V("kind", p.k = a.k, a.k)
-                           \o V("average", D3Le(D3Abs(err), unit), el)
-                           \o (IF IsDate(a) THEN <<>> ELSE V("zone", p.k = "dt" /\ ZRef(p.z) = ZRef(a.z), a.z)))
+                      ELSE V("x-average-kind", p.k = a.k, a.k)
+                           \o V("x-average", D3Le(D3Abs(err), unit), el)
+                           \o (IF IsDate(a) THEN <<>> ELSE V("x-average-zone", p.k = "dt" /\ ZRef(p.z) = ZRef(a.z), a.z)))
             [] m = "is_same_day" ->
-                 R(cls, V("is_same_day", p.v = (<<a.w[1], a.w[2], a.w[3]>> = <<b.w[1], b.w[2], b.w[3]>>), "same wall-clock date"))
+                 R(cls, V("x-is_same_day", p.v = (<<a.w[1], a.w[2], a.w[3]>> = <<b.w[1], b.w[2], b.w[3]>>), "same wall-clock date"))
             [] m = "is_anniversary" ->
-                 R(cls, V("is_anniversary", p.v = (<<a.w[2], a.w[3]>> = <<b.w[2], b.w[3]>>), "same month and day")
-                        \o V("is_birthday", p.v2 = p.v, "alias"))
+                 R(cls, V("x-is_anniversary", p.v = (<<a.w[2], a.w[3]>> = <<b.w[2], b.w[3]>>), "same month and day")
+                        \o V("x-is_birthday", p.v2 = p.v, "alias"))
 
 \* ---- C06 -----------------------------------------------------------------------------
 ValidPoint(v, cmp) == /\ cmp.k = "dt" /\ ZRef(cmp.z) = ZRef(v.z) /\ cmp.w = v.w
@@ -388,6 +390,48 @@ J_dur_op(e) ==
                    \o V("ge", p.ge = D3Le(ys, xs), D3Le(ys, xs))
                    \o V("hash", (xs = ys) => p.hash_eq, "equal values hash equal")
                    \o V("hash-native", p.hash_native, "hash(Duration) = hash(timedelta of the same length)"))
+
+\* an Interval used as a duration (C05 x C10): arithmetic acts on its exact length and returns a Duration,
+\* negation and abs return Intervals over the same end-points, whole-day totals truncate toward zero
+J_iv_arith(e) ==
+  LET a == e.pre[1]  b == e.pre[2]  p == e.post  o == e.a.o
+      el0 == Elapsed(a, b)
+      el == IF e.a.abs THEN D3Abs(el0) ELSE el0
+      td == <<e.a.d, e.a.s, e.a.us>>
+      lab == <<o, a.k, B(e.a.abs), N(D3Sign(el0) + 1), PClass(a), PClass(b)>>
+      \* one constant offset on both sides: the wall-clock day count is the elapsed day count
+      plain == IsDate(a) \/ IsNaive(a) \/ (a.z.n \in {"", "UTC"} /\ ZRef(a.z) = ZRef(b.z))
+      IvLen(q, want) == IF q.k = "exc" THEN << <<"unexpected-exception", q.names>> >>
+                        ELSE IF q.k # "iv" THEN << <<"kind", q.k>> >>
+                        ELSE V("class", q.cls = "Interval", "Interval") \o V("length", q.r3 = want, want)
+  IN IF PClass(a) = "skipped" \/ PClass(b) = "skipped" THEN R(<<"ill-formed-endpoint">>, <<>>)
+     ELSE IF ~Exact(el0) \/ D3Abs(el0)[1] > 20000 THEN R(<<"beyond-float-exact">>, <<>>)
+     ELSE IF PClass(a) = "repeated" /\ PClass(b) = "repeated" /\ ~IsDate(a) /\ ZRef(a.z) = ZRef(b.z) /\ e.a.abs
+          THEN R(<<"overlap-pair">>, <<>>)                  \* finding C05-magnitude-inside-overlap, judged by iv_len
+     ELSE CASE o = "as_duration" -> R(lab, CmpDur(p, el) \o TypeDur(p, TRUE))
+            \* -interval swaps the end-points and keeps `absolute` (so an absolute interval keeps its magnitude)
+            [] o = "neg" -> R(lab, IvLen(p, IF e.a.abs THEN D3Abs(el0) ELSE D3Neg(el0)))
+            [] o = "abs" -> R(lab, IvLen(p, D3Abs(el0)))
+            [] o \in {"mul_int", "rmul_int"} -> R(lab, CmpDur(p, D3MulInt(el, e.a.n)) \o TypeDur(p, TRUE))
+            [] o = "floordiv_int" -> R(lab, CmpDur(p, D3FloorDivInt(el, e.a.n)) \o TypeDur(p, TRUE))
+            [] o = "truediv_int" -> R(lab, CmpDur(p, D3DivRHE(el, e.a.n)) \o TypeDur(p, TRUE))
+            [] o \in {"add_td", "radd_td"} -> R(lab, CmpDur(p, D3Add(el, td)) \o TypeDur(p, TRUE))
+            [] o = "sub_td" -> R(lab, CmpDur(p, D3Sub(el, td)) \o TypeDur(p, TRUE))
+            [] o = "totals" ->
+                 R(lab \o <<"plain", B(plain)>>,
+                   IF p.k = "exc" THEN << <<"unexpected-exception", p.names>> >>
+                   ELSE V("total_seconds", p.ts = el, el)
+                        \o V("x-eq-timedelta", p.eq_td, "an Interval equals the timedelta of its length")
+                        \o V("x-eq-duration", p.eq_dur, "an Interval equals its as_duration()")
+                        \o V("x-in_years", p.iny = <<(IF p.years = 0 THEN 0 ELSE IF p.years > 0 THEN 1 ELSE -1), Abs(p.years)>>, "years")
+                        \* Interval.in_days() counts the CALENDAR-DAY boundaries between the two wall dates (23:59 -> 00:01
+                        \* is one day), unlike Duration.in_days(), which truncates the elapsed time: modelled as implemented
+                        \o (IF plain THEN LET cd0 == Ord(b.w[1], b.w[2], b.w[3]) - Ord(a.w[1], a.w[2], a.w[3])
+                                              cd == IF e.a.abs THEN Abs(cd0) ELSE cd0
+                                              sg == IF cd = 0 THEN 0 ELSE IF cd > 0 THEN 1 ELSE -1
+                                          IN V("x-in_days", p.ind = <<sg, Abs(cd)>>, cd)
+                                             \o V("x-in_weeks", p.inw = <<(IF Abs(cd) \div 7 = 0 THEN 0 ELSE sg), Abs(cd) \div 7>>, cd)
+                             ELSE <<>>))
 
 \* ---- C20 -----------------------------------------------------------------------------
 J_time_add(e) ==
@@ -852,6 +896,7 @@ Judge(e) == CASE e.op = "in_tz" -> J_in_tz(e)
               [] e.op = "add_cal_date" -> J_add_cal_date(e)
               [] e.op = "iv_len" -> J_iv_len(e)
               [] e.op = "rel" -> J_rel(e)
+              [] e.op = "iv_arith" -> J_iv_arith(e)
               [] e.op = "iv_comp" -> J_iv_comp(e)
               [] e.op \in {"start_of", "end_of"} -> J_start_end(e)
               [] e.op \in {"next", "previous"} -> J_nav(e)
